@@ -52,7 +52,7 @@ def probeLine (sh : Shape) (T : ByteArray) (args : List String) : String :=
       else if !distinct (men.map (·.2)) then "bad-op"
       else if (men.filter (·.1 == 1)).length != 1 || (men.filter (·.1 == 7)).length != 1 then "bad-op"
       else
-        let b : Board := { men := sortBySq men, wtm := side == "w", castle := castle }
+        let b : Board := { men := sortMen (men.map fun m => mkMan m.1 m.2), wtm := side == "w", castle := castle }
         let i := match sh.setPosition b with | some i => toString i | none => "none"
         match probeDTM sh T b ply with
         | some s => s!"{i} hit {s}"
@@ -60,18 +60,56 @@ def probeLine (sh : Shape) (T : ByteArray) (args : List String) : String :=
     | _, _, _ => "bad-op"
   | _ => "bad-op"
 
+def insertStr (a : String) : List String → List String
+  | [] => [a]
+  | b :: l => if a ≤ b then a :: b :: l else b :: insertStr a l
+def sortStr (l : List String) : List String := l.foldr insertStr []
+
+def kindOfCode (code : Nat) : Option Kind :=
+  match (if code > 6 then code - 6 else code) with
+  | 1 => some .K | 2 => some .Q | 3 => some .R | 4 => some .B | 5 => some .N | _ => none
+
+/-- legal successors of an arbitrary pawnless position with at most 4 men, by the game model -/
+def legalLine (args : List String) : String :=
+  match args with
+  | side :: menS =>
+    match menS.mapM parseMan with
+    | some men =>
+      if (side != "w" && side != "b") || men.length > 4 || men.any (fun m => m.1 == 6 || m.1 == 12) then "bad-op"
+      else if !distinct (men.map (·.2)) then "bad-op"
+      else if (men.filter (·.1 == 1)).length != 1 || (men.filter (·.1 == 7)).length != 1 then "bad-op"
+      else
+        -- class: the men present, in slot order (N, B, R, Q per side)
+        let pick (code : Nat) := men.filter (·.1 == code)
+        let whiteMen := pick 5 ++ pick 4 ++ pick 3 ++ pick 2
+        let blackMen := pick 11 ++ pick 10 ++ pick 9 ++ pick 8
+        let cls : Cls := { white := whiteMen.filterMap (fun m => kindOfCode m.1), black := blackMen.filterMap (fun m => kindOfCode m.1) }
+        let c := cls.cc
+        let sh := c.shape
+        let p : Pos := { wtm := side == "w", sq := (pick 1 ++ whiteMen ++ pick 7 ++ blackMen).map (·.2) }
+        if !legal c p then "illegal"
+        else
+          let show1 (q : Pos) : String :=
+            (if q.wtm then "w" else "b") ++
+              (sortMen (presentMen sh.types q.sq)).foldl (fun s m => s ++ s!",{manCode m}@{manSq m}") ""
+          let succ := sortStr ((moves c p).map show1)
+          s!"chk={b2s (inCheck c p)} n={succ.length}" ++ succ.foldl (fun s x => s ++ " " ++ x) ""
+    | none => "bad-op"
+  | _ => "bad-op"
+
 /-- pure line protocol -/
 def step (args : List String) : String :=
   match args with
   | ["tables"] =>
-    "sym " ++ joinNats ((List.range 64).map symType) ++ " kmap " ++ joinNats ((List.range 64).map kingMap) ++
-    " kinv " ++ joinNats kingMapInverse
+    "sym " ++ joinNats symTypeTab.toList ++ " kmap " ++ joinNats kingMapTab.toList ++
+    " kinv " ++ joinNats kingMapInvTab.toList
   | "idx" :: rest =>
     match allNat? rest with
     | some l => match clsOfCounts (l.take 8), l.drop 8 with
       | some c, [i] => if i < c.cc.shape.nPos then idxData c.cc c.cc.shape i else "bad-op"
       | _, _ => "bad-op"
     | none => "bad-op"
+  | "legal" :: rest => legalLine rest
   | "abortmodel" :: fixed :: evs => Abort.runLine (fixed == "fixed") evs
   | _ => "bad-op"
 
